@@ -79,7 +79,7 @@ theorem C09_sink_fold (m : Metric) (xs ys : List Row) :
 memory/segments) and batches: a group is reported iff some row has its key and the key is
 retained, and every reported cell is the reference fold over exactly the rows of that group.
 PARTIAL w.r.t. `NoSplit` / `GoodFlow` (see header). -/
-theorem C09_equals_fold_partial (p : Plan) (zl : Nat → Bool) (flows : List (List TRow))
+theorem C09_equals_fold_partial (p : Plan) (zl : Nat → Option Bool) (flows : List (List TRow))
     (hns : ∀ fl ∈ flows, NoSplit p fl) (hg : ∀ fl ∈ flows, GoodFlow p fl) (k : Key) :
     reportAt p (runFlows p zl flows) k =
       if retained p k && !(groupRows p flows k).isEmpty then
@@ -89,7 +89,7 @@ theorem C09_equals_fold_partial (p : Plan) (zl : Nat → Bool) (flows : List (Li
 
 /-- **Homomorphism, table level**: one flow over `xs ++ ys` and two flows `xs`, `ys` whose
 partial tables the coordinator merges give the same final table. -/
-theorem C09_homomorphism_table_partial (p : Plan) (zl : Nat → Bool) (xs ys : List TRow)
+theorem C09_homomorphism_table_partial (p : Plan) (zl : Nat → Option Bool) (xs ys : List TRow)
     (hns : NoSplit p (xs ++ ys)) (hg : GoodFlow p (xs ++ ys)) (k : Key) :
     reportAt p (runFlows p zl [xs ++ ys]) k = reportAt p (runFlows p zl [xs, ys]) k := by
   have hx : NoSplit p xs := fun a ha b hb => hns a (by simp [ha]) b (by simp [hb])
@@ -105,7 +105,7 @@ theorem C09_homomorphism_table_partial (p : Plan) (zl : Nat → Bool) (xs ys : L
 /-- **Partition independence.** Two runs over the same multiset of rows — any split over
 shards / memory / segments / batches, any arrival (merge) order of the partial tables, either
 iteration order — report the same table. PARTIAL (same hypotheses, on both runs). -/
-theorem C09_partition_independent_partial (p : Plan) (zl zl' : Nat → Bool) (flows flows' : List (List TRow))
+theorem C09_partition_independent_partial (p : Plan) (zl zl' : Nat → Option Bool) (flows flows' : List (List TRow))
     (hperm : (allRows flows).Perm (allRows flows'))
     (hns : ∀ fl ∈ flows, NoSplit p fl) (hg : ∀ fl ∈ flows, GoodFlow p fl)
     (hns' : ∀ fl ∈ flows', NoSplit p fl) (hg' : ∀ fl ∈ flows', GoodFlow p fl) (k : Key) :
@@ -129,7 +129,7 @@ theorem C09_partition_independent_fails :
     ∃ (p : Plan) (flows flows' : List (List TRow)),
       (allRows flows).Perm (allRows flows') ∧
       (∀ fl ∈ flows, NoSplit p fl) ∧ (∀ fl ∈ flows', NoSplit p fl) ∧
-      finalTable p (runFlows p (fun _ => true) flows) ≠ finalTable p (runFlows p (fun _ => true) flows') := by
+      finalTable p (runFlows p (fun _ => some true) flows) ≠ finalTable p (runFlows p (fun _ => some true) flows') := by
   let blank : Row := [some ⟨none, none⟩]
   let abc : Row := [some ⟨none, some "abc"⟩]
   refine ⟨⟨[.min 0], none, none, 0, true⟩, [[(false, blank), (false, abc)]],
@@ -142,11 +142,12 @@ theorem C09_partition_independent_fails :
 
 /-- Un-grouped COUNT/TOTAL/AVG: when one batch of a flow takes the columnar path and another
 the row path, the sink holds two groups that `into_partial` maps to the same key — one
-replaces the other. Two rows, COUNT reports 1 under either iteration order. (class
+replaces the other. Two rows, COUNT reports 1 under either iteration order (only when the two
+keys happen to meet in the hash table, ≈ 1 run in 128, is the answer 2). (class
 `columnar-key-split`) -/
 theorem C09_columnar_split_fails :
     ∃ (p : Plan) (fl : List TRow), ¬ NoSplit p fl ∧
-      ∀ z : Bool, reportAt p (runFlows p (fun _ => z) [fl]) ⟨none, []⟩ = some [.int 1] ∧
+      ∀ z : Bool, reportAt p (runFlows p (fun _ => some z) [fl]) ⟨none, []⟩ = some [.int 1] ∧
         spec .countAll (allRows [fl]) = .int 2 := by
   refine ⟨⟨[.countAll], none, none, 0, true⟩, [(true, []), (false, [])], ?_, ?_⟩
   · intro h
@@ -160,7 +161,7 @@ theorem C09_columnar_split_fails :
 group under that key; and the rows of distinct groups are disjoint and together are all rows.
 PARTIAL: whether the group is *reported* additionally needs `retained`, see
 `C09_null_group_dropped_fails`. -/
-theorem C09_every_row_one_group_partial (p : Plan) (zl : Nat → Bool) (flows : List (List TRow))
+theorem C09_every_row_one_group_partial (p : Plan) (zl : Nat → Option Bool) (flows : List (List TRow))
     (hns : ∀ fl ∈ flows, NoSplit p fl) (hg : ∀ fl ∈ flows, GoodFlow p fl) (r : Row) (hr : r ∈ allRows flows) :
     (∃ sts, (runFlows p zl flows).get (finalKey p r) = some sts) ∧
     (∀ k, r ∈ groupRows p flows k ↔ k = finalKey p r) ∧
@@ -191,7 +192,7 @@ missing field or the empty string. Those selected rows are in *no* reported grou
 `group-null-or-empty-dropped`) -/
 theorem C09_null_group_dropped_fails :
     ∃ (p : Plan) (flows : List (List TRow)) (r : Row), r ∈ allRows flows ∧
-      finalTable p (runFlows p (fun _ => true) flows) = some [] := by
+      finalTable p (runFlows p (fun _ => some true) flows) = some [] := by
   refine ⟨⟨[.countAll], some [0], none, 0, true⟩, [[(false, [some ⟨none, some ""⟩])]],
     [some ⟨none, some ""⟩], by simp [allRows], by decide⟩
 
@@ -231,7 +232,7 @@ theorem C09_total_exact_partial (f : Nat) (rs : List Row)
 `2`. (class `total-avg-nonint-ignored`) -/
 theorem C09_nonint_total_fails :
     finalTable ⟨[.total 0, .avg 0], none, none, 9, true⟩
-      (runFlows ⟨[.total 0, .avg 0], none, none, 9, true⟩ (fun _ => true)
+      (runFlows ⟨[.total 0, .avg 0], none, none, 9, true⟩ (fun _ => some true)
         [tagFlow ⟨[.total 0, .avg 0], none, none, 9, true⟩ 1 [[[.float "1.5"], [.int 2]]]]) =
       some [(⟨none, []⟩, [.int 2, .avg 2 1])] := by
   decide
@@ -242,15 +243,15 @@ string `""`) and 1 when the null sits in its own (all-null ⇒ typed) batch. (cl
 `count-field-null-in-string-column`) -/
 theorem C09_batching_fails :
     let p : Plan := ⟨[.countField 0], none, none, 9, true⟩
-    finalTable p (runFlows p (fun _ => true) [tagFlow p 1 [[[.float "1.5"], [.null]]]]) = some [(⟨none, []⟩, [.int 2])] ∧
-    finalTable p (runFlows p (fun _ => true) [tagFlow p 1 [[[.float "1.5"]], [[.null]]]]) = some [(⟨none, []⟩, [.int 1])] := by
+    finalTable p (runFlows p (fun _ => some true) [tagFlow p 1 [[[.float "1.5"], [.null]]]]) = some [(⟨none, []⟩, [.int 2])] ∧
+    finalTable p (runFlows p (fun _ => some true) [tagFlow p 1 [[[.float "1.5"]], [[.null]]]]) = some [(⟨none, []⟩, [.int 1])] := by
   decide
 
 /-- COUNT UNIQUE reads `get_str_at`, which answers `None` on a typed i64 column: three
 different integers count as one value (`""`). (class `count-unique-typed-int-column`) -/
 theorem C09_count_unique_int_fails :
     let p : Plan := ⟨[.countUnique 0], none, none, 9, true⟩
-    finalTable p (runFlows p (fun _ => true) [tagFlow p 1 [[[.int 1], [.int 2], [.int 3]]]]) =
+    finalTable p (runFlows p (fun _ => some true) [tagFlow p 1 [[[.int 1], [.int 2], [.int 3]]]]) =
       some [(⟨none, []⟩, [.int 1])] := by
   decide
 
@@ -284,7 +285,7 @@ example :
     let fl1 : List TRow := tagFlow p 2 [[[.str "a", .int 5], [.str "b", .int 7]]]
     let fl2 : List TRow := tagFlow p 2 [[[.str "a", .int (-2)]]]
     (∀ fl ∈ [fl1, fl2], NoSplit p fl) ∧
-    finalTable p (runFlows p (fun _ => true) [fl1, fl2]) =
+    finalTable p (runFlows p (fun _ => some true) [fl1, fl2]) =
       some [(⟨none, ["a"]⟩, [.int 2, .int 3, .int (-2), .int 1]), (⟨none, ["b"]⟩, [.int 1, .int 7, .int 7, .int 1])] := by
   refine ⟨fun fl _ => noSplit_of_grouping _ _ rfl, by decide⟩
 
